@@ -504,10 +504,14 @@ def run_nested(ctx, res, n):
 
 # ---- round 3: layouts with an ALL-ZERO Padding on captions with i / b / u spans -> WebVTT and DFXP ---------------------------
 def _zero_layouts():
-    from pycaption.geometry import Layout, Padding, Size, UnitEnum
+    from pycaption.geometry import (Layout, Padding, Size, UnitEnum, Alignment, HorizontalAlignmentEnum,
+                                    VerticalAlignmentEnum)
     z = lambda: Size(0, UnitEnum.PERCENT)       # noqa: E731
+    # the zero padding stands beside another component (an alignment), as in a SAMI stylesheet with zero margins
+    # and a text-align: the layout is then not "empty" whatever the truth value of the padding
+    al = lambda: Alignment(HorizontalAlignmentEnum.CENTER, VerticalAlignmentEnum.BOTTOM)   # noqa: E731
     return {"empty-padding": Layout(padding=Padding()),
-            "zero-padding": Layout(padding=Padding(before=z(), after=z(), start=z(), end=z()))}
+            "zero-padding": Layout(padding=Padding(before=z(), after=z(), start=z(), end=z()), alignment=al())}
 
 
 def zero_padding_sets(spec, how):
@@ -516,7 +520,7 @@ def zero_padding_sets(spec, how):
     margin to 0%, read by the SAMIReader"""
     if how[0] == "sami":
         doc = SAMIWriter().write(G.capset([spec]))
-        doc = doc.replace("<!--", "<!--\n    p { margin-left: 0%; margin-right: 0%; margin-top: 0%; margin-bottom: 0%; }", 1)
+        doc = doc.replace("<!--", "<!--\n    p { margin-left: 0%; margin-right: 0%; margin-top: 0%; margin-bottom: 0%; text-align: center; }", 1)
         return SAMIReader().read(doc)
     cs = G.capset([spec])
     cap = all_caption_objects(cs)[0]
